@@ -452,7 +452,25 @@ class ExtraOps:
             self.violate("attach_not_rejected", {"node": str(node)[:150], "marker": is_marker}, entry=t)
         if w.token(node.payload) != before:
             self.violate("payload_overwritten", {"node": str(node)[:150], "via": "attach_payload"}, entry=t)
-        self.logev(w.op_index, "attach", "second")
+        # every *other* relation type rejects attachment, whatever its payload is (a leaf
+        # without payload included): sweep the non-marker nodes of the tree as well
+        swept = 0
+        for other in nodes:
+            if other is node or isinstance(other, MarkerRelation):
+                continue
+            b = w.token(other.payload)
+            try:
+                other.attach_payload(RowSequence([]))
+            except TypeError:
+                swept += 1
+            except Exception as e:  # noqa
+                self.violate("attach_wrong_exception", {"node": str(other)[:150]}, entry=t, exc=e)
+            else:
+                self.violate("attach_not_rejected", {"node": str(other)[:150], "marker": False}, entry=t)
+            if w.token(other.payload) != b:
+                self.violate("payload_overwritten", {"node": str(other)[:150], "via": "attach_payload"}, entry=t)
+        self.probes["attach_rejected_ok"] += swept
+        self.logev(w.op_index, "attach", "second", swept)
 
     # --------------------------------------------------------------- raw trees
     def build_raw(self, ent, memo):
